@@ -39,7 +39,7 @@ OPS_API = {
     'osetmulti': ['cfg_opt_setmulti'], 'setopt': ['cfg_setopt'], 'setcomment': ['cfg_setcomment'], 'osetcomment': ['cfg_opt_setcomment'],
     'addtsec': ['cfg_addtsec'], 'rmnsec': ['cfg_rmnsec'], 'rmtsec': ['cfg_rmtsec'], 'rmsec': ['cfg_rmsec'], 'ormnsec': ['cfg_opt_rmnsec'],
     'ormtsec': ['cfg_opt_rmtsec'], 'getopt': ['cfg_getopt'], 'getsec': ['cfg_getsec'], 'getnsec': ['cfg_getnsec'], 'gettsec': ['cfg_gettsec', 'cfg_opt_gettsec'],
-    'get': ['cfg_getnint', 'cfg_getnfloat', 'cfg_getnbool', 'cfg_getnstr', 'cfg_size', 'cfg_getcomment', 'cfg_getint', 'cfg_getfloat', 'cfg_getbool', 'cfg_getstr'],
+    'get': ['cfg_getnint', 'cfg_getnfloat', 'cfg_getnbool', 'cfg_getnstr', 'cfg_getnptr', 'cfg_getptr', 'cfg_size', 'cfg_getcomment', 'cfg_getint', 'cfg_getfloat', 'cfg_getbool', 'cfg_getstr'],
     'print': ['cfg_print', 'cfg_print_indent'], 'oprint': ['cfg_opt_print', 'cfg_opt_print_indent', 'cfg_opt_nprint_var'],
     'set_pff': ['cfg_set_print_filter_func'], 'set_pf': ['cfg_opt_set_print_func'], 'set_pf_name': ['cfg_set_print_func'],
     'set_vf': ['cfg_set_validate_func'], 'set_vf2': ['cfg_set_validate_func2'], 'seterr': ['cfg_set_error_function'],
@@ -47,6 +47,7 @@ OPS_API = {
     'dump': ['cfg_getnopt', 'cfg_opt_size', 'cfg_opt_getnint', 'cfg_opt_getnfloat', 'cfg_opt_getnbool', 'cfg_opt_getnstr', 'cfg_opt_getnptr',
              'cfg_opt_getnsec', 'cfg_title', 'cfg_opt_getcomment', 'cfg_name', 'cfg_opt_name'],
     'secinfo': ['cfg_name', 'cfg_title'],
+    'misc': ['cfg_num', 'cfg_numopts', 'cfg_opt_getstr', 'cfg_parse_boolean'],
 }
 FAILVAL = {'init': '0', 'setopt': '0', 'addtsec': '0', 'parse_buf': ('1', '-1'), 'parse_fp': ('1', '-1'), 'parse': ('1', '-1'), 'roundtrip': ('1', '-1')}
 NOCOUNT = ('dump', 'note', 'allocs', 'mkfile', 'mkdir', 'wipe', 'passwd', 'me', 'cb_quiet', 'w_mode', 'pffnames', 'env')
@@ -82,7 +83,8 @@ def workloads(root):
     W['lookups'] = (0, ['init A M1 0', 'parse_buf A ' + E(TEXT), 'getopt A ' + E('sec|in=t2|z'), 'getopt A ' + E("mt='b c'|s"), 'getsec A ' + E("sec|in='t 1'"),
                         'getnsec A %s 1' % E('m'), 'gettsec A %s %s' % (E('mt'), E('a')), 'get A %s int 0' % E('m=1|x'), 'get A %s str 1' % E('sl'),
                         'get A %s float 0' % E('f'), 'get A %s bool 0' % E('b'), 'get A %s size 0' % E('sec|in'), 'get A %s comment 0' % E('i'),
-                        'getopt A ' + E('nosuch|x'), 'getsec A ' + E('mt=zz')])
+                        'getopt A ' + E('nosuch|x'), 'getsec A ' + E('mt=zz'), 'get A %s ptr 0' % E('p'), 'get A %s ptr 1' % E('pl'),
+                        'misc A ' + E('s')])
     W['files'] = (0, ['wipe', 'mkdir ' + E('sp'), 'mkfile %s %s' % (E('sp/inc.conf'), E(b'i = 42\ninclude("inc2.conf")\n')),
                       'mkfile %s %s' % (E('sp/inc2.conf'), E(b's = deep\n')), 'mkfile %s %s' % (E('top.conf'), E(b'il += {8}\ninclude("inc.conf")\n')),
                       'passwd %s %s' % (E('me'), E(r + '/h')), 'me ' + E('me'),
@@ -214,6 +216,8 @@ def shard(sh):
                     elif name == 'get':
                         rl = [l for l in lines if l.startswith('r get ')]
                         okfail = rl and rl[0] in ('r get 0', 'r get ~', 'r get 0.0')
+                    elif name == 'misc':
+                        okfail = True
                     elif name in ('print', 'oprint'):
                         okfail = True
                     elif name in ('set_vf', 'set_vf2', 'set_pf', 'set_pf_name', 'set_pff', 'seterr', 'pffnames'):
